@@ -187,6 +187,10 @@ class snapshot:  # pylint: disable=invalid-name
                 )
 
             self._snapshot = Snapshot(capture=capture, name=name, location=location)
+        else:
+            # The arguments of the decorator are validated even if the snapshot is disabled so that the misuse is
+            # reported independently of the interpreter mode (``-O``). The capture is not called.
+            Snapshot(capture=capture, name=name, location=None)
 
     def __call__(self, func: CallableT) -> CallableT:
         """
